@@ -25,8 +25,10 @@ CompareResult arithmeticCompare(const T& lhs, const T& rhs) {
     return COMPARE_RESULT_LESS;
   else if (lhs > rhs)
     return COMPARE_RESULT_GREATER;
-  else
+  else if (lhs == rhs)
     return COMPARE_RESULT_EQUAL;
+  else
+    return COMPARE_RESULT_DIFFER;  // NaN
 }
 
 template <typename T1, typename T2>
